@@ -21,6 +21,7 @@ fn main() {
         "survive" => Box::new(fam::survive::Survive::new(&args)),
         "illtyped" => Box::new(fam::illtyped::IllTyped::new(&args)),
         "totality" => Box::new(fam::totality::Totality::new(&args)),
+        "evalcmp" => Box::new(fam::evalcmp::EvalCmp::new(&args)),
         "corpus" => Box::new(fam::corpus::Corpus::new(&args)),
         "sig-gate" => Box::new(fam::catalog::gate::Gate::new(&args)),
         "boundary" => Box::new(fam::catalog::boundary::Boundary::new(&args)),
